@@ -125,7 +125,7 @@ Print Assumptions C16_later_writes_independent.
    whole-pointer copy).
    ==================================================================================================== *)
 From CV Require Import Value.ValueEq Value.EqualM Value.Den Value.CanonMHeap Value.CanonMLoop Value.CanonMInd
-                       Value.CopyValue Value.CopyValueHeap Value.CopyValueInd Value.CopyValueEq Value.CanonSpec Value.EqualCorrect.
+                       Value.CopyValue Value.CopyValueHeap Value.CopyValueDefs Value.CopyValueInd Value.CopyValueEq Value.CanonSpec Value.EqualCorrect.
 From CV Require Import Core.SafetyProofs.
 
 (* SetPtr / SetRoot / PointerList.Set of a pointer of another message: afterwards the slot reads
@@ -134,7 +134,7 @@ Theorem C16_copy_value_ptr : forall m f D cap rl a src v fc w',
   msg_ok m -> CanonMLoop.hinv D -> 0 <= a -> a mod 8 = 0 -> a + 8 <= zlen D ->
   wf_ptr m src -> aligned src -> caligned src -> ctag_ok m src -> den true m 0 [] src v -> cvdom v = true ->
   write_ptr f true (dstw D cap m rl) 0 a InSrc src fc = Ok w' ->
-  exists D' cap' rl', w' = dstw D' cap' m rl' /\ CanonMLoop.hinv D' /\ reads_as D' a v.
+  exists D' cap' rl', w' = dstw D' cap' m rl' /\ CanonMLoop.hinv D' /\ (bytes_ok D -> bytes_ok D') /\ reads_as D' a v.
 Proof. exact copy_value_ptr. Qed.
 Print Assumptions C16_copy_value_ptr.
 
@@ -147,13 +147,13 @@ Theorem C16_copy_value_struct : forall m f D cap rl dst s ws vs A dn pn w',
   p_valid s = true -> p_kind s = KStruct -> wf_ptr m s -> aligned s ->
   den true m 0 [] s (VStruct ws vs) -> forallb cvdom vs = true ->
   copy_struct f true (dstw D cap m rl) dst InSrc s = Ok w' ->
-  exists D' cap' rl', w' = dstw D' cap' m rl' /\ CanonMLoop.hinv D' /\
+  exists D' cap' rl', w' = dstw D' cap' m rl' /\ CanonMLoop.hinv D' /\ (bytes_ok D -> bytes_ok D') /\
     forall mid caps, den true [D'] mid caps dst (resize (VStruct ws vs) (Z.to_nat dn) (Z.to_nat pn)).
 Proof. exact copy_value_struct. Qed.
 Print Assumptions C16_copy_value_struct.
 
 (* the invariant behind both, for every fuel *)
-Theorem C16_copy_value_invariant : forall m, msg_ok m -> forall f, P_wp m f /\ P_cs m f.
+Theorem C16_copy_value_invariant : forall m, msg_ok m -> forall f, CopyValueDefs.P_wp m f /\ CopyValueDefs.P_cs m f.
 Proof. exact P_all. Qed.
 Print Assumptions C16_copy_value_invariant.
 
@@ -165,16 +165,16 @@ Theorem C16_resize_value_eq : forall ws ps dn pn,
 Proof. exact resize_value_eq. Qed.
 Print Assumptions C16_resize_value_eq.
 
-(* capnp.Equal(source, copy) = true (model equal_m, by C17_equal_m_correct); [msg_ok [D']] -- the
-   destination segment consists of bytes -- is a hypothesis here *)
+(* capnp.Equal(source, copy) = true (model equal_m, by C17_equal_m_correct); the copy keeps the
+   destination a segment of bytes (bytes_ok), so no hypothesis about the result is needed *)
 Theorem C16_copy_then_equal : forall m f D cap rl a src v fc w' c fx,
-  msg_ok m -> CanonMLoop.hinv D -> 0 <= a -> a mod 8 = 0 -> a + 8 <= zlen D ->
+  msg_ok m -> CanonMLoop.hinv D -> bytes_ok D -> 0 <= a -> a mod 8 = 0 -> a + 8 <= zlen D ->
   wf_ptr m src -> aligned src -> caligned src -> ctag_ok m src -> den true m 0 [] src v -> cvdom v = true ->
   write_ptr f true (dstw D cap m rl) 0 a InSrc src fc = Ok w' ->
   cfg_strict c = true -> all_fixed fx ->
   exists D' cap' rl' q, w' = dstw D' cap' m rl' /\
     (exists dep rlx rlx', readPtr true [D'] rlx 0 D' a dep = (Ok q, rlx')) /\
-    (msg_ok [D'] -> forall fuel st b st',
+    (forall fuel st b st',
        equal_m fuel c fx (mkEC m [] [D'] [] false) st src q = (EOk b, st') -> b = true).
 Proof. exact copy_then_equal. Qed.
 Print Assumptions C16_copy_then_equal.
